@@ -727,6 +727,11 @@ def replay_known(pid, k, contracts):
 
 
 def finish(run, exit_code):
+    if os.environ.get("PYVC_EVIDENCE_OFF"):
+        # (a run on a scratch copy with a seeded change: report only, the evidence file belongs to /repo's tree)
+        print(f"[{run.pid}] tier={run.tier} violations={len(run.violations)} undecided={len(run.undecided)} "
+              f"faults={len(run.faults)} exit={exit_code}")
+        return exit_code
     os.makedirs(EVID_DIR, exist_ok=True)
     n_obl = len(run.results)
     n_dis = sum(1 for r in run.results if r["verdict"] == "unsat")
@@ -751,7 +756,7 @@ def finish(run, exit_code):
     trusted = [
         "z3 %s / cvc5 (CLI, one process per query)" % z3.get_version_string(),
         "pyvc (this repository's VC generator: symex.py, values.py, arrays.py, contract.py)",
-        "library contracts in pyvc/stubs*.py (numpy / scipy / dask / polars behaviour), conformance-tested in conform.py",
+        "library contracts in pyvc/stubs.py, rotation.py, frames.py (numpy / scipy / dask / polars behaviour as far as acryo uses it): assumed, spot-checked against the installed libraries by tools/conform.py",
     ] + [f"trusted contract (body not verified): {rep.key}" for rep in run.reports if rep.trusted] + run.extra_trusted
     for c in C.REGISTRY.values():
         if run.pid in c.props:
@@ -798,3 +803,43 @@ def finish(run, exit_code):
             f"known={len(run.known_hits)} undecided={len(run.undecided)} faults={len(run.faults)} "
             f"canaries={run.canaries_refuted}/{run.canaries_total} wall={ev['wall_s']}s exit={exit_code}")
     return exit_code
+
+
+def seeded_self_test(pid):
+    """thorough tier: run this property's check on scratch copies of /repo with each kept seeded change applied and record
+    in the evidence file which of them it reports (exit 1) -- the unchanged tree was already decided by the caller"""
+    import glob, shutil, tempfile
+    seeds = []
+    for meta in sorted(glob.glob(os.path.join(ROOT, "seeded", "*", "meta.json"))):
+        try:
+            m = json.load(open(meta))
+        except Exception:
+            continue
+        if m.get("property") == pid:
+            seeds.append(os.path.dirname(meta))
+    results = []
+    for d in seeds:
+        tmp = tempfile.mkdtemp(prefix="pyvc_seed_")
+        try:
+            shutil.copytree(os.path.join(X.REPO, "acryo"), os.path.join(tmp, "acryo"))
+            ap = subprocess.run(["patch", "-p1", "-s", "-d", tmp, "-i", os.path.join(d, "patch.diff")], capture_output=True, text=True)
+            if ap.returncode != 0:
+                results.append({"seed": os.path.basename(d), "applied": False, "note": (ap.stdout + ap.stderr)[-200:]})
+                continue
+            env = dict(os.environ, PYVC_REPO=tmp, PYVC_EVIDENCE_OFF="1")
+            p = subprocess.run([PY, "-m", "pyvc.cli", pid, "--tier", "quick"], cwd=ROOT, env=env, capture_output=True, text=True)
+            viol = [l for l in p.stdout.splitlines() if l.startswith("VIOLATION")]
+            results.append({"seed": os.path.basename(d), "applied": True, "exit": p.returncode, "violations": len(viol),
+                            "reported": p.returncode == 1})
+            print(f"SEEDED-CHANGE {os.path.basename(d)}: exit={p.returncode} violations={len(viol)}")
+        finally:
+            shutil.rmtree(tmp, ignore_errors=True)
+    path = os.path.join(EVID_DIR, f"{pid}.json")
+    try:
+        ev = json.load(open(path))
+        ev["coverage"]["seeded_changes"] = results
+        ev["coverage"]["seeded_changes_reported"] = sum(1 for r in results if r.get("reported"))
+        ev["coverage"]["seeded_changes_total"] = len(results)
+        json.dump(ev, open(path, "w"), indent=1)
+    except Exception as e:      # pragma: no cover
+        print("could not add the seeded self-test to the evidence file:", e)
